@@ -145,6 +145,43 @@ def expected_ids(fmt, data_dir):
                 exp.append('%s:%s' % (m.group(1).decode(), m.group(2).decode()))
     return exp
 
+def dup_case(seed):
+    """The path list reaches files more than once (listed twice, listed next to their directory, files of equal size between the
+    copies): every line is still delivered exactly once."""
+    d = os.path.join(BUILD, 'io', 'c18-dup-%d' % os.getpid())
+    shutil.rmtree(d, ignore_errors=True)
+    os.makedirs(os.path.join(d, 'data'))
+    try:
+        exe, err = compile_sim('io', ['harness/io.cpp'])
+        if exe is None:
+            return []
+        names = ['part_a.txt', 'part_b.txt', 'part_c.txt', 'part_d.txt']
+        nlines = [40, 40, 25, 40]                # a, b and d have exactly the same size
+        for fid, (nm, k) in enumerate(zip(names, nlines)):
+            with open(os.path.join(d, 'data', nm), 'wb') as fh:
+                for ln in range(k):
+                    fh.write(make_line('lines', fid, ln, 64))
+        P = lambda nm: os.path.join(d, 'data', nm)
+        fails = []
+        for i, (ranks, paths) in enumerate([(1, [P('part_a.txt'), P('part_b.txt'), os.path.join(d, 'data')]), (3, [P('part_a.txt'), P('part_b.txt'), P('part_a.txt')]),
+                                            (2, [os.path.join(d, 'data'), P('part_d.txt'), P('part_a.txt'), P('part_b.txt'), P('part_d.txt')])]):
+            r = simrun(exe, ranks, ['lines'] + paths, ppn=ranks, seed=seed + i, policy='uniform', wall=60)
+            if r['verdict'] != 'ok':
+                fails.append({'what': 'line_parser over a path list with repeated files ended with %s %s' % (r['verdict'], r['detail']), 'cmd': r['cmd']}); continue
+            got = sorted(t for l in r['out'] if l.startswith('L ') for t in l.split(':', 1)[1].split())
+            reach = set()
+            for pth in paths:
+                reach |= ({os.path.basename(pth)} if os.path.isfile(pth) else set(names))
+            want = sorted('f%d_%d:%d' % (fid, ln, 63) for fid, (nm, k) in enumerate(zip(names, nlines)) if nm in reach for ln in range(k))
+            if got != want:
+                from collections import Counter
+                extra = list((Counter(got) - Counter(want)).elements())
+                fails.append({'what': 'line_parser over the paths %s on %d ranks delivered %d lines, the files hold %d (delivered more than once: %s)' % (
+                    [os.path.basename(x) or 'data/' for x in paths], ranks, len(got), len(want), extra[:4]), 'cmd': r['cmd']})
+        return fails
+    finally:
+        shutil.rmtree(d, ignore_errors=True)
+
 def one_case(rng, idx, tier):
     fmt = ['lines', 'lines', 'csv', 'ndjson'][idx % 4]
     ranks = rng.choice([1, 2, 2, 3, 4, 5, 8])
@@ -250,7 +287,7 @@ def run(tier, seed, replay=None):
             return list(ex.map(lambda a: one_case(*a), cases))
     def tie(res):
         results = explore(seed, 12 if tier == 'quick' else 120)
-        fails = [f for r in results for f in r.get('fails', [])]
+        fails = [f for r in results for f in r.get('fails', [])] + dup_case(seed)
         n, msg = coq_assignment_check(results)
         return {'ok': msg is None, 'msg': msg, 'failures': fails, 'validated': n, 'evaluations': len(results),
                 'nontrivial': sum(1 for r in results if any(f['boundaries'] for f in r.get('case', {}).get('files', []))),
